@@ -2,6 +2,8 @@
 import Frugal.Proofs.SizeExact
 import Frugal.Proofs.ReaderProps
 import Frugal.Proofs.SecondHop
+import Frugal.Proofs.HoldersRead
+import Frugal.Proofs.DecodeRefine
 import Frugal.Props.Instances
 namespace Frugal.C11
 open Frugal
@@ -38,6 +40,43 @@ theorem second_hop_keeps_unknown (S : Schema) (hS : S.ok = true) (sid : Nat) (vs
     refEnc S (.strct sid) (.st vs (unknownBytes (S.get sid) fs)) =
       ser (.strct (toWireFields S (S.get sid) (S.get sid).fields vs ++ unknownOnly (S.get sid) fs)) :=
   reencode_known_then_unknown S hS sid vs fs ht hn
+
+/-- **every nesting level.**  Whatever well-formed message `DecodeObject` accepts (unknown fields of
+    every type anywhere, any order, duplicates, trailing bytes), in the value it returns every holder —
+    of the top-level struct, of struct fields, of list / set elements, of map keys and values, at any
+    depth — is the serialisation of a list of well-formed fields (`fitH`, Proofs/Holders.lean; also:
+    every string and container within int32), provided the destination's own holders were.  `hdf`:
+    declared defaults are such values (they are scalars and strings). -/
+theorem decoded_holders_are_field_lists (S : Schema) (hS : S.ok = true)
+    (hdf : ∀ sid, ∀ f ∈ (S.get sid).fields, ∀ d, f.dflt = some d → fitH d = true)
+    (sid : Nat) (fs : List (Nat × TVal)) (trailing : Bytes) (dest w : Val) (n : Nat)
+    (hw : wfFields fs = true) (hdest : fitH dest = true)
+    (h : decodeM Generated.params S sid (ser (.strct fs) ++ trailing) dest = .ok (w, n)) :
+    fitH w = true := by
+  rw [decodeM_refines Instances.params_valid S hS sid fs trailing _ hw] at h
+  obtain ⟨w0, h0, e⟩ := mapv_ok_inv _ _ _ h
+  simp only [Prod.mk.injEq] at e
+  obtain ⟨rfl, _⟩ := e
+  exact readMessage_fitH Generated.params S hdf sid fs trailing.length dest _ hw hdest h0
+
+/-- … consequently (C02 for values with retained bytes) re-encoding any such value, when it is a
+    typed value of the schema, writes a well-formed Thrift message: the serialisation of its
+    denotation `toWireH`, in which every struct lists, after its recognised fields, the fields its
+    holder serialises -/
+theorem reencoding_is_wellformed (S : Schema) (hS : S.ok = true) (sid : Nat) (w : Val)
+    (ht : hasTy S (.strct sid) w = true) (hf : fitH w = true) :
+    refEncStruct S sid w = ser (toWireH S (.strct sid) w) ∧ wf (toWireH S (.strct sid) w) = true :=
+  ⟨refEnc_eq_serH S hS w (.strct sid) rfl rfl ht (fitH_holdersOK w hf),
+   toWireH_wf S hS w (.strct sid) rfl rfl ht hf⟩
+
+/-- … where, for a struct whose holder was filled from the message `fs`, those are exactly the
+    unrecognised fields of `fs`, unchanged and in message order -/
+theorem denotation_lists_unknown (S : Schema) (sid : Nat) (vs : List Val) (fs : List (Nat × TVal))
+    (hw : wfFields fs = true) :
+    toWireH S (.strct sid) (.st vs (unknownBytes (S.get sid) fs)) =
+      .strct (toWireFieldsH S (S.get sid) (S.get sid).fields vs ++ unknownOnly (S.get sid) fs) := by
+  simp only [toWireH, unknownBytes_eq_ser]
+  rw [holderFields_ser _ (wfFields_sublist _ _ (unknownOnly_sublist _ fs) hw)]
 
 /-- the recognised fields are decoded as if the unknown ones were not there: whenever a message is
     read successfully, the same message without its unrecognised fields — wherever it sits in a
